@@ -73,6 +73,12 @@ pub fn run_history(case: &HistoryCase, monitors: &mut [&mut dyn Monitor], l: &mu
         if let Op::Skewed { .. } = op {
             l.count(if r.did == Did::Ok { "skewed_tick_array_op_accepted" } else { "skewed_tick_array_op_refused" });
         }
+        if let (Op::CollectRewardFrom { index, from, .. }, Did::Ok) = (op, &r.did) {
+            return Err(format!("after op #{i} {op:?}: reward {index} was collected from an account that is not that reward's vault (variant {from})"));
+        }
+        if let Op::Supplemented { .. } = op {
+            l.count(if r.did == Did::Ok { "swap_with_supplemental_tick_arrays_ok" } else { "swap_with_supplemental_tick_arrays_not_ok" });
+        }
         for m in monitors.iter_mut() {
             m.after(&h, &pre, &post, op.effective(), &r, l).map_err(|e| format!("after op #{i} {op:?}: {e}"))?;
         }
@@ -113,6 +119,7 @@ pub fn op_name(op: &Op) -> &'static str {
         Op::Swap { .. } => "swap",
         Op::SwapBack { .. } => "swap_back",
         Op::SwapExact { .. } => "swap_exact_budget",
+        Op::ReinitArray { .. } => "reinit_tick_array",
         Op::UpdateFees { .. } => "update_fees",
         Op::CollectFees { .. } => "collect_fees",
         Op::CollectProtocolFees { .. } => "collect_protocol_fees",
@@ -121,11 +128,12 @@ pub fn op_name(op: &Op) -> &'static str {
         Op::Close { .. } => "close",
         Op::AdvanceClock(_) => "advance_clock",
         Op::CollectReward { .. } => "collect_reward",
+        Op::CollectRewardFrom { .. } => "collect_reward_from_another_account",
         Op::SetEmissions { .. } => "set_emissions",
         Op::SetEmissionsNearVault { .. } => "set_emissions_near_vault",
         Op::FundRewardVault { .. } => "fund_reward_vault",
         Op::SetTransferFee { .. } => "set_transfer_fee",
         Op::AdvanceEpoch(_) => "advance_epoch",
-        Op::Skewed { .. } => unreachable!(),
+        Op::Skewed { .. } | Op::Supplemented { .. } => unreachable!(),
     }
 }
